@@ -343,6 +343,9 @@ def run(ctx):
     _sel_inplace(ctx, 'C07.R1')
     from .configtime import stepped_extent_counts_round_up as _ceil
     _ceil(ctx, 'C07.R1')
+    # a plate-level pre-check refuses exactly what the per-well chain of transfers refuses: it compares rounded values
+    from .c03 import rounded_stock_compare as _stock
+    _stock(ctx, 'C07.R2')
     from .configtime import late_binding_closures as _late
     _late(ctx, 'C07.R2', classes=('Container', 'Plate', 'PlateSlicer', 'Slicer'))
     from . import c01
